@@ -207,7 +207,7 @@ def replay_rule(rp):
         return out
     import ctparse.types as T
     from contracts.generic import rule_clauses
-    cl = rule_clauses(name, T.pod_hours, {}, args[0], [view(a) for a in args[1:]], view(res))
+    cl = rule_clauses(name, T.pod_hours, {}, args[0], [view(a) for a in args[1:]], view(res), rp.get("spec_name"))
     for cname, props, val in cl:
         if cname == clause:
             out["clause_value"] = bool(val)
